@@ -102,5 +102,15 @@ J2PMsg(d, mt, msgs, o, dbl) ==
   ELSE IF \E i, j \in live : i < j /\ Idx(d.e[i]) = Idx(d.e[j]) THEN Unspec("DuplicateMember")
   ELSE IF c.st # "ok" THEN c
   ELSE OkV(PMsgV(Sorted(ps, LAMBDA a, b : a.num < b.num)))
+\* sign of zero is not compared when the document holds the integer literal -0 (a reader may take it for the integer 0 or for -0.0):
+\* NormZ drops singular float/double fields holding a zero and makes every other float zero positive
+RECURSIVE NormZ(_)
+NormZ(v) ==
+  IF v.k = "double" THEN (IF v.b = NegZero8 THEN PScal("double", PosZero8) ELSE v)
+  ELSE IF v.k = "float" THEN (IF v.b = <<128, 0, 0, 0>> THEN PScal("float", <<0, 0, 0, 0>>) ELSE v)
+  ELSE IF v.k # "message" THEN v
+  ELSE LET keep == {i \in 1..Len(v.f) : ~(v.f[i].card = "one" /\ v.f[i].e[1].v.k \in {"double", "float"} /\ IsZero(NormZ(v.f[i].e[1].v).b))}
+           ks == [r \in 1..Cardinality(keep) |-> CHOOSE i \in keep : Cardinality({j \in keep : j < i}) = r - 1] IN
+       PMsgV([r \in 1..Len(ks) |-> [v.f[ks[r]] EXCEPT !.e = [j \in 1..Len(@) |-> [@[j] EXCEPT !.v = NormZ(@)]]]])
 J2PDoc(d, root, msgs, o, dbl) == IF d.k = "obj" THEN J2PMsg(d, root, msgs, o, dbl) ELSE Unspec("RootNotAnObject")
 =============================================================================
